@@ -1,7 +1,7 @@
 /-
   Model driver for C14 (line protocol, see harness/c14_main.c). Imports Model + Gen only.
-  For `crc32 <align> <init> <hex>` it prints "<generic model over the Gen tables> <reference> <reference>",
-  which must equal the harness line "<C generic> <C arch-optimised> <C public>".
+  For `crc32 <align> <init> <hex>` it prints "<generic model over the Gen tables> <CLMUL model over the Gen constants>
+  <reference>", which must equal the harness line "<C generic> <C arch-optimised> <C public>".
   For `sha256…` it prints "<model of sha256.c over the Gen constants, fed piece by piece> <FIPS reference of the
   concatenation>", which must equal "<lzma_check_* digest> <lzma_sha256_* digest>".
 -/
@@ -9,11 +9,16 @@ import XzVerif.Model.Proto
 import XzVerif.Model.Crc
 import XzVerif.Model.Sha256
 import XzVerif.Model.Check
+import XzVerif.Model.CrcClmul
 import XzVerif.Gen.C14
 open XzVerif XzVerif.Proto XzVerif.Crc
 
 def genK : List Sha256.W32 := Gen.C14.sha256K.map (BitVec.ofNat 32)
 def genInit : List Sha256.W32 := Gen.C14.sha256Init.map (BitVec.ofNat 32)
+
+/-- parameters of the CLMUL model from the constants the compiled code uses (empty lists: no CLMUL code in the build) -/
+def clmulP32 : Clmul.Params := Clmul.Params.ofConsts false Gen.C14.clmul32 Gen.C14.clmulVmasks
+def clmulP64 : Clmul.Params := Clmul.Params.ofConsts true Gen.C14.clmul64 Gen.C14.clmulVmasks
 
 def impl : Check.Impl :=
   { crc32 := crc32Ref, crc64 := crc64Ref, shaK := genK, shaInit := genInit }
@@ -39,14 +44,16 @@ def step (_ : Unit) (ws : List String) : Unit × String :=
     | some a, some i, some bs =>
       let r := (crc32Ref bs (BitVec.ofNat 32 i)).toNat
       let g := (crc32Generic Gen.C14.crc32Table a bs (BitVec.ofNat 32 i)).toNat
-      ((), s!"{g} {r} {r}")
+      let c := if Gen.C14.clmul32.isEmpty then r else (Clmul.crc32Clmul clmulP32 bs (BitVec.ofNat 32 i)).toNat
+      ((), s!"{g} {c} {r}")
     | _, _, _ => ((), "bad-op")
   | ["crc64", al, ini, hx] =>
     match al.toNat?, ini.toNat?, bytesOfHex hx with
     | some a, some i, some bs =>
       let r := (crc64Ref bs (BitVec.ofNat 64 i)).toNat
       let g := (crc64Generic Gen.C14.crc64Table a bs (BitVec.ofNat 64 i)).toNat
-      ((), s!"{g} {r} {r}")
+      let c := if Gen.C14.clmul64.isEmpty then r else (Clmul.crc64Clmul clmulP64 bs (BitVec.ofNat 64 i)).toNat
+      ((), s!"{g} {c} {r}")
     | _, _, _ => ((), "bad-op")
   | "crc32s" :: ini :: pieces =>
     match ini.toNat?, pieces.mapM bytesOfHex with
